@@ -20,7 +20,7 @@ func init() { register("C15", checkC15) }
 
 func checkC15(w *World, r *Recorder) propInfo {
 	info := propInfo{
-		Explanation: "H1 writer: interval abstract interpretation of structFieldsCBOR.ToCBOR on n = number of keys yields the exact partition n=0 → a0; 1..23 → one byte a0+n; 24..255 → b8 n; 256..65535 → b9 + big-endian uint16; ≥65536 → ba + big-endian uint32, compared with the CBOR major-type-5 header table. H2 reader: processAdditionalInfo's cells: 0..23 direct; 24/25/26 → 1/2/4 bytes big-endian, each behind a len(data) ≥ k guard and returning the rest; 27..30 and >31 error; 31 indefinite. H3 composition: in FromCBOR the indefinite-length loop (the one that tests for the break byte ff) is reached only in states with additional-info = 31, and the definite path is taken for every other value including a declared length of 0 — so what H1 writes for n entries is read back as the definite map of n entries (the all-empty struct included). H4 walkers: in each of doSerializeStructTo{CBOR,JSON} and doPopulateStructFrom{CBOR,JSON}, the edges by which an iteration of the field loop skips the field are exactly: collectEmbedded()==true, no cbor/json tag, key == \"-\", and (serialise) omitempty ∧ IsZero / (populate) absent ∧ omitempty; a missing key without omitempty returns an error; isOmitEmpty is true only through equality with the constant \"omitempty\" over the options after the first; the tag looked up is the codec's own; embedded structs are handled by recursion over the collected list with the same map. H5 duplicate CBOR key: unmarshalKeyValue returns Add's error and Add inserts only when the key is absent. H6 ordered map: Keys/Fields are written only by Add, Delete, the constructors and the two From* readers. H7 stable order: ToCBOR / ToJSON walk the Keys slice; no range over a map reaches an output append in the encoding package. Not decided: equality with the plain marshaller over struct families, round-trip of field values (library behaviour), 70 000-key runs beyond the header thresholds.",
+		Explanation: "H1 writer: interval abstract interpretation of structFieldsCBOR.ToCBOR on n = number of keys yields the exact partition n=0 → a0; 1..23 → one byte a0+n; 24..255 → b8 n; 256..65535 → b9 + big-endian uint16; ≥65536 → ba + big-endian uint32, compared with the CBOR major-type-5 header table. H2 reader: processAdditionalInfo's cells: 0..23 direct; 24/25/26 → 1/2/4 bytes big-endian, each behind a len(data) ≥ k guard and returning the rest; 27..30 and >31 error; 31 indefinite. H3 composition: in FromCBOR the indefinite-length loop (the one that tests for the break byte ff) is reached only in states with additional-info = 31, and the definite path is taken for every other value including a declared length of 0 — so what H1 writes for n entries is read back as the definite map of n entries (the all-empty struct included). H4 walkers: in each of doSerializeStructTo{CBOR,JSON} and doPopulateStructFrom{CBOR,JSON}, the edges by which an iteration of the field loop skips the field are exactly: collectEmbedded()==true, no cbor/json tag, key == \"-\", and (serialise) omitempty ∧ IsZero / (populate) absent ∧ omitempty; a missing key without omitempty returns an error; isOmitEmpty is true only through equality with the constant \"omitempty\" over the options after the first; the tag looked up is the codec's own; embedded structs are handled by recursion over the collected list with the same map. H5 duplicate CBOR key: unmarshalKeyValue returns Add's error and Add inserts only when the key is absent. H6 ordered map: Keys/Fields are written only by Add, Delete, the constructors and the two From* readers. H7 stable order: ToCBOR / ToJSON walk the Keys slice; no range over a map reaches an output append in the encoding package. Not decided: equality with the plain marshaller over struct families, round-trip of field values (library behaviour), 70 000-key runs beyond the header thresholds. H12: with no keys the JSON map writer emits exactly {} and does not patch its output afterwards.",
 		Rule:        "one obligation per header cell, per loop-entry state, per walker skip edge, per writer",
 		Trusted:     []string{"go/types+go/ssa", "interval engine (bit masks, shifts, byte conversions, big-endian models)", "RFC 8949 major-type-5 header table (spec)"},
 	}
